@@ -133,7 +133,38 @@ func c07Sub(algs func(tier string) []string, d func(tier string) int) *engine.Su
 			}
 		},
 		NewCase: func() any { return &c07Case{} },
-		Run: func(ctx *engine.Ctx, c any) {
+		Run:     c07Run(paths),
+	}
+}
+
+// c07SizeSub grows one field of the base token to a size on either side of the usual thresholds.
+func c07SizeSub() *engine.Sub {
+	paths := decodePaths()
+	return &engine.Sub{
+		Name: "size-thresholds",
+		Rule: "the base delegation / invocation with ONE field grown to exactly n: string / bytes / list / map values of an argument or metadata entry, number of arguments, metadata entries, proofs and policy statements, width of an and, nesting depth of a policy and of an argument value, selector length, pattern length, literal length, nonce length, command length and segment count; n on both sides of 24, 256, 1024, 4096 and 65536 (thorough: +-1 around each and 2^20); sealed / encoded and decoded through the 8 paths, all fields must agree; non-trivial = tokens accepted by the constructor",
+		Bound: func(t string) string {
+			return fmt.Sprintf("%d + %d grown fields x sizes %v (depths %v, counts %v) x Ed25519 x 8 decode paths", len(SizeFields("dlg")), len(SizeFields("inv")), SizesFor("meta-str", t), SizesFor("pol-depth", t), SizesFor("prf", t))
+		},
+		Gen: func(tier string, emit func(any) bool) {
+			for _, kind := range []string{"dlg", "inv"} {
+				for _, f := range SizeFields(kind) {
+					for _, n := range SizesFor(f, tier) {
+						if !emit(&c07Case{Spec: TokSpec{Kind: kind, Alg: "ed25519", Opts: map[string]string{"size:" + f: fmt.Sprint(n), "nonce": "12"}}}) {
+							return
+						}
+					}
+				}
+			}
+		},
+		NewCase: func() any { return &c07Case{} },
+		Run:     c07Run(paths),
+	}
+}
+
+func c07Run(paths []decodePath) func(ctx *engine.Ctx, c any) {
+	return func(ctx *engine.Ctx, c any) {
+		{
 			cs := c.(*c07Case)
 			ctx.States(1)
 			tok, key, err := BuildToken(cs.Spec)
@@ -182,6 +213,10 @@ func c07Sub(algs func(tier string) []string, d func(tier string) int) *engine.Su
 				if err != nil {
 					ctx.Outcome("unseal-error")
 					cls := c07Class(cs.Spec, "unseal-fails", p.Codec)
+					if _, n, ok := sizeOption(cs.Spec); ok && n >= 1<<20 && strings.Contains(err.Error(), "demanded too many resources") {
+						// the DAG-CBOR decoder of go-ipld-prime gives every message a fixed allocation budget
+						cls = "unseal-fails/decoder-allocation-budget"
+					}
 					if !failed[cls] {
 						failed[cls] = true
 						ctx.Failf(cs, cls, "%s sealed fine but %s rejects it: %v", cs.Spec, p.Name, err)
@@ -203,7 +238,7 @@ func c07Sub(algs func(tier string) []string, d func(tier string) int) *engine.Su
 				}
 				ctx.Outcome("roundtrip-ok")
 			}
-		},
+		}
 	}
 }
 
@@ -342,7 +377,7 @@ func C07() *engine.Check {
 	return &engine.Check{
 		Property: "C07",
 		Level:    "model_checking",
-		Subs:     []*engine.Sub{c07Sub(algs, d), c07SharedSub()},
+		Subs:     []*engine.Sub{c07Sub(algs, d), c07SizeSub(), c07SharedSub()},
 		Assumptions: []string{
 			"fixture keys (one per algorithm, committed) stand for 'every generatable key'; C16 covers key-to-DID conversion over more keys",
 			"non-finite floats are outside the property's premise and not in the alphabet",
